@@ -212,7 +212,15 @@ pub fn judge(c: &Case, outs: &[Vec<Tok>]) -> Vec<String> {
                         }
                     }
                     b"DESTROY" => { if let (V::Int(1), Some(e)) = (&rep, db.get_mut(&a[2])) { e.groups.remove(&a[3]); } }
-                    b"SETID" if a.len() >= 5 => { if let (V::Simple(_), Some(g)) = (&rep, db.get_mut(&a[2]).and_then(|e| e.groups.get_mut(&a[3]))) { g.setid = true; } }
+                    b"SETID" if a.len() >= 5 => {
+                        // the cursor moves to the given position: entries above it may (again) be delivered
+                        let top = db.get(&a[2]).and_then(|e| e.ids.iter().next_back().cloned()).unwrap_or((0, 0));
+                        if let (V::Simple(_), Some(g)) = (&rep, db.get_mut(&a[2]).and_then(|e| e.groups.get_mut(&a[3]))) {
+                            g.setid = true;
+                            let ns = if a[4] == b"$" { top } else { pid(&a[4]).unwrap_or((0, 0)) };
+                            g.start = ns; g.delivered.retain(|i| *i <= ns);
+                        }
+                    }
                     b"CREATECONSUMER" if a.len() == 5 => { if let (V::Int(n), Some(g)) = (&rep, db.get_mut(&a[2]).and_then(|e| e.groups.get_mut(&a[3]))) {
                         let fresh = g.consumers.insert(a[4].clone());
                         if !g.uncertain && (*n == 1) != fresh { fail(format!("{}CREATECONSUMER answered {} for a {} consumer", g.class(), n, if fresh { "new" } else { "known" })); } } }
